@@ -261,7 +261,12 @@ func (s *Sim) serve() {
 			reply = &Frame{Port: f.Port, Kind: 'X', From: f.From, Data: []byte{ok}}
 		case 'C', 'v':
 			switch s.ConnectReply {
-			case "ok":
+			case "ok", "noise-then-ok":
+				if s.ConnectReply == "noise-then-ok" {
+					// frames of other kinds about this connection before the answer: an echo of the 'v' request, an unproto frame
+					c.Write(Frame{Port: f.Port, Kind: 'v', From: f.To, To: f.From, Data: []byte{0}}.Encode())
+					c.Write(Frame{Port: f.Port, Kind: 'U', From: f.To, To: f.From, Data: []byte("1:Fm X To Y <UI pid=F0 Len=1 >[12:00:00]\rx\r")}.Encode())
+				}
 				reply = &Frame{Port: f.Port, Kind: 'C', From: f.To, To: f.From, Data: []byte("*** CONNECTED With Station " + f.To + "\r\x00")}
 			case "refuse":
 				reply = &Frame{Port: f.Port, Kind: 'd', From: f.To, To: f.From, Data: []byte("*** DISCONNECTED RETRYOUT With " + f.To + "\r\x00")}
